@@ -135,9 +135,16 @@ def oracle(case, imp):
             # the call sits unregistered in protocol.Stream.send_request when the connection goes away)
             bad.append(('caller %d ended with %s' % (k, c), {'kind': 'internal-error', 'stage': 'unregistered'}))
     # (5) Channel.close() terminates calls still in flight
-    for bi, unfinished, stages, _ in imp['inflight_at_close']:
+    #     close() acts on the connection the channel holds (`_protocol`).  A call registered on an EARLIER
+    #     connection -- one that keepalive / GOAWAY already closed and that the channel has replaced, but whose
+    #     connection_lost the transport still withholds -- is terminated by that connection's own close path
+    #     (connection_lost); that is judged by clause (6) after every withheld connection_lost was delivered.
+    conn_of = {k: c for k, c, _ in imp['handed'] if k is not None}
+    for bi, unfinished, stages, snap in imp['inflight_at_close']:
         after = obs[bi]['callers']
         for k in unfinished:
+            if after[k] == 'p' and stages.get(k) == 'registered' and conn_of.get(k) != snap.get('protocol'):
+                continue
             if after[k] == 'p':
                 bad.append(('call %d (%s) survived Channel.close() in batch %d' % (k, stages.get(k), bi),
                             {'kind': 'close-missed-call', 'stage': stages.get(k, '?')}))
@@ -296,7 +303,7 @@ def add_epilogue(case, ncallers):
         batches.append([R[:]])
     # a withheld connection_lost is finally delivered (the harness must not hold it for ever)
     nres = sum(1 for b in batches for st in b if st[0] in ('resolve', 'start'))
-    batches.append([['lose', c] for c in range(min(nres, 12))])
+    batches.append([['lose', c] for c in range(min(nres, 24))])
     at = len(batches)
     batches.append([['close']])
     rounds = nf + 1
